@@ -68,6 +68,10 @@ FIXED = [
     ('FX-autosemi-in-message', 'C12', '8043159',
      'syntax-error message quoted the synthetic semicolon as "\';\' at 1:0" '
      '(witness "a break\\n")'),
+    ('FX-string-octal-backtracking', 'C12', '5a614a4',
+     'time to reject an unterminated string of octal escapes doubled with '
+     'every escape (witness \'"\' + "\\\\00" * 30: minutes of CPU for 91 '
+     'characters)'),
     ('FX-keyword-property-c01', 'C01', '9979704',
      'pretty output "({\\n  p: a.return\\n})" rejected on re-parse'),
 ]
